@@ -30,20 +30,21 @@ RULE = ("sequential: every sequence of load / load-from-document / render (both 
         "granularity, of two thread programs from the tier's pool (three threads sampled), forced on the real engine and judged "
         "for linearisability against the reference machine; the same programs free-running on a -race build")
 
-ALLK = {"Load", "Render", "Get", "Validate", "Remove", "Clear", "SetBasePath"}
+ALLK = {"Load", "Render", "Get", "Validate", "Remove", "Clear", "SetBasePath", "Analyze"}
+ALLE = {"doc", "tpl", "rnd"}
 NAMES = {"base", "A", "B", "G"}
 
 
 def mc_cfg(ctx, name, variant, pool, maxloads, invariants, properties):
     return ctx.cfg(name, "SpecMC",
-                   {"Variant": variant, "OpKinds": ALLK, "ArgNames": NAMES, "Entries": {"doc", "tpl"}, "MaxLoads": maxloads, "Depth": 0},
-                   invariants=invariants, properties=properties, extra="CONSTANTS\n  Loadables <- %s" % pool)
+                   {"Variant": variant, "OpKinds": ALLK, "ArgNames": NAMES, "Entries": ALLE, "MaxLoads": maxloads, "Depth": 0},
+                   invariants=invariants, properties=properties, extra="CONSTANTS\n  Loadables <- %s\n  RDatas <- DatasKinds" % pool)
 
 
-def gen_cfg(ctx, name, pool, kinds, argnames, entries, depth):
+def gen_cfg(ctx, name, pool, kinds, argnames, entries, depth, datas="DatasStd"):
     return ctx.cfg(name, "SpecGen",
                    {"Variant": "ref", "OpKinds": set(kinds), "ArgNames": set(argnames), "Entries": set(entries), "MaxLoads": 999, "Depth": depth},
-                   invariants=["Emit"], extra="CONSTANTS\n  Loadables <- %s" % pool)
+                   invariants=["Emit"], extra="CONSTANTS\n  Loadables <- %s\n  RDatas <- %s" % (pool, datas))
 
 
 def conc_cfg(ctx, name, variant, setup, progs, invariants):
@@ -147,7 +148,7 @@ def merged(ctx, tag, lists):
 
 
 def sequential(ctx, q):
-    inv = ["Inv_ShowsPure", "Inv_RenderPure", "Inv_CacheAgree"]
+    inv = ["Inv_ShowsPure", "Inv_RenderPure", "Inv_FrontAgnostic", "Inv_CacheAgree"]
     props = ["Act_Local", "Act_ReadersPure", "Act_ValuesImmutable"]
     ctx.tlc_mc("Engine_MC.tla", mc_cfg(ctx, "mc_ref.cfg", "ref", "PoolCore" if q else "PoolQuick", 3 if q else 4, inv, props), timeout=900)
     # as-built variant: base shows the child's block after two loads, a sibling after three
@@ -158,18 +159,26 @@ def sequential(ctx, q):
     core = dict(pool="PoolCore", kinds=["Load", "Render", "Remove", "Clear"], argnames=["A"], entries=["doc"])
     wide = dict(pool="PoolQuick" if q else "PoolThorough", kinds=["Load", "Render", "Remove", "Clear"],
                 argnames=sorted(NAMES) if q else ["base", "A"], entries=["doc", "tpl"])
-    plans = [("bfs-core", core, 4 if q else 5), ("bfs-wide", wide, 2 if q else 3)]
+    wide["datas"] = "DatasKeys"
+    # the TemplateRenderer front: templates loaded from files, rendered through RenderTemplate with every kind of
+    # list item, analysed; next to templates loaded through the engine API under the same names
+    front = dict(pool="PoolFile", kinds=["Load", "Render", "Analyze", "Remove"], argnames=["base", "A"],
+                 entries=["rnd"] if q else ["tpl", "rnd"], datas="DatasKinds")
+    plans = [("bfs-core", core, 4 if q else 5), ("bfs-wide", wide, 2 if q else 3), ("bfs-front", front, 2 if q else 3)]
     lists = []
     for tag, a, depth in plans:
-        lists.append(ctx.tlc_gen("Engine_MC.tla", gen_cfg(ctx, "gen_%s.cfg" % tag, a["pool"], a["kinds"], a["argnames"], a["entries"], depth), tag))
+        lists.append(ctx.tlc_gen("Engine_MC.tla", gen_cfg(ctx, "gen_%s.cfg" % tag, a["pool"], a["kinds"], a["argnames"], a["entries"], depth,
+                                                          a.get("datas", "DatasStd")), tag))
     ctx.exhaustive = True
     d = 8 if q else 14
-    lists.append(ctx.tlc_gen("Engine_MC.tla", gen_cfg(ctx, "gen_sim.cfg", "PoolThorough", sorted(ALLK), sorted(NAMES), ["doc", "tpl"], d),
-                             "sim", mode="sim", num=15 if q else 100, depth=d + 2))
+    lists.append(ctx.tlc_gen("Engine_MC.tla", gen_cfg(ctx, "gen_sim.cfg", "PoolThorough", sorted(ALLK), sorted(NAMES), sorted(ALLE), d, "Datas"),
+                             "sim", mode="sim", num=6 if q else 40, depth=d + 2))
     judge(ctx, ctx.run_exec("engine", merged(ctx, "seq", lists), "seq"), "seq", parts=1 if q else 4)
-    ctx.extra_cov["sequential_bounds"] = {"bfs_core_depth": plans[0][2], "bfs_wide_depth": plans[1][2], "sim_depth": d,
-                                          "behaviours": {"bfs_core": len(lists[0]), "bfs_wide": len(lists[1]), "sim": len(lists[2])},
-                                          "pools": {"core": "PoolCore", "wide": wide["pool"], "sim": "PoolThorough"}}
+    ctx.extra_cov["sequential_bounds"] = {"bfs_core_depth": plans[0][2], "bfs_wide_depth": plans[1][2], "bfs_front_depth": plans[2][2], "sim_depth": d,
+                                          "behaviours": {"bfs_core": len(lists[0]), "bfs_wide": len(lists[1]), "bfs_front": len(lists[2]),
+                                                         "sim": len(lists[3])},
+                                          "pools": {"core": "PoolCore", "wide": wide["pool"], "front": "PoolFile", "sim": "PoolThorough"},
+                                          "render_data": {"core": "DatasStd", "wide": "DatasKeys", "front": "DatasKinds", "sim": "Datas"}}
 
 
 def concurrent(ctx, q):
